@@ -46,7 +46,7 @@ type C03Scenario struct {
 }
 
 var c03Kinds = []string{"pub", "pub", "pub", "pubcancel", "sub", "sub", "unsub", "clear", "clearall", "has", "count", "wait"}
-var c03PersistKinds = []string{"replay", "replay-upcast", "subreplay", "storeread", "reg-upcast", "reg-upcast", "clear-upcasts", "clear-upcasts-type", "mat-apply", "mat-apply", "mat-get", "mat-all", "mat-last", "mat-replay", "mat-register", "shutdown"}
+var c03PersistKinds = []string{"replay", "replay-upcast", "subreplay", "subreplay", "storeread", "save-offset", "load-offset", "reg-upcast", "reg-upcast", "clear-upcasts", "clear-upcasts-type", "mat-apply", "mat-apply", "mat-get", "mat-all", "mat-last", "mat-replay", "mat-register", "shutdown"}
 var c03ReentrantKinds = []string{"pub", "sub", "unsub", "clear", "count", "has"}
 
 func genC03Op(rt *rapid.T, kinds []string, leafOnly bool) C03Op {
@@ -79,6 +79,14 @@ func genC03(rt *rapid.T) core.Scenario {
 	nInit := rapid.IntRange(0, 4).Draw(rt, "nInit")
 	for i := 0; i < nInit; i++ {
 		sc.Init = append(sc.Init, genC03Op(rt, []string{"sub"}, false))
+	}
+	if sc.Persist {
+		// a sequential preamble that leaves events in the store and upcasters registered for their
+		// type names, so that the concurrent replays below have chains to walk
+		nPre := rapid.IntRange(0, 4).Draw(rt, "nPre")
+		for i := 0; i < nPre; i++ {
+			sc.Init = append(sc.Init, genC03Op(rt, []string{"pub", "reg-upcast"}, false))
+		}
 	}
 	nt := rapid.IntRange(2, 5).Draw(rt, "nTasks")
 	for t := 0; t < nt; t++ {
@@ -230,7 +238,14 @@ func (sc *C03Scenario) Execute(t *testing.T) *core.Outcome {
 			data, _ := json.Marshal(msg)
 			stored = append(stored, &eventbus.StoredEvent{Offset: eventbus.Offset(fmt.Sprintf("%020d", i+1)), Type: "state.ChangeMessage", Data: data, Timestamp: time.Unix(int64(i), 0)})
 		}
-		upName := func(n int) string { return fmt.Sprintf("V%d", n%4) }
+		// upcaster names: the persisted names of the scenario's three types (so that replays really walk
+		// chains while other tasks register and clear upcasters), and one name nothing is stored under
+		upName := func(n int) string {
+			if n%4 < 3 {
+				return typ(n % 4).PersistName
+			}
+			return fmt.Sprintf("V%d", n%4)
+		}
 		exec := func(op C03Op, slot int) {
 			switch op.Kind {
 			case "pub":
@@ -265,7 +280,13 @@ func (sc *C03Scenario) Execute(t *testing.T) *core.Outcome {
 			case "replay-upcast":
 				w.Bus.ReplayWithUpcast(ctx, eventbus.OffsetOldest, func(e *eventbus.StoredEvent) error { simrt.Yield(siteCallback); return nil })
 			case "subreplay":
-				eventbus.SubscribeWithReplay(ctx, w.Bus, fmt.Sprintf("sub-%d", op.N), func(e E00) { simrt.Yield(siteHandler) })
+				// a resumable subscription to an active type: replays what is stored, then saves its
+				// position on every live delivery while other tasks load and save positions
+				typ(op.T).SubReplay(w, ctx, fmt.Sprintf("sub-%d", op.N%2), func(int) { simrt.Yield(siteHandler) })
+			case "save-offset":
+				store.SaveOffset(ctx, fmt.Sprintf("sub-%d", op.N%2), eventbus.Offset(fmt.Sprintf("%020d", op.Fn+1)))
+			case "load-offset":
+				store.LoadOffset(ctx, fmt.Sprintf("sub-%d", op.N%2))
 			case "storeread":
 				store.Read(ctx, eventbus.OffsetOldest, op.N)
 			case "reg-upcast":
